@@ -225,6 +225,13 @@ func main() {
 		os.Exit(selftest(o))
 	case "c02canon":
 		c02Canon()
+	case "c02dump": // debug: worker c02dump <seed> <n> prints the generated sources
+		seed, _ := strconv.ParseUint(os.Args[2], 10, 64)
+		n, _ := strconv.Atoi(os.Args[3])
+		for i := 0; i < n; i++ {
+			cs := genC02(NewRng(seed, strSeed("C02"), uint64(i)), i)
+			fmt.Printf("%d\t%v\t%q\n", i, cs.Env.Names, cs.Source)
+		}
 	case "c03exp":
 		c03Exp()
 	case "c04alone":
@@ -288,7 +295,12 @@ func shard(o *opts) {
 		curCase.Store(int64(i))
 		curStart.Store(time.Now().Unix())
 		simrt.ResetPools()
+		fuelOuts, guardMaxSteps = 0, 0
 		out := ck.RunCase(c, i)
+		if fuelOuts > 0 && guardMaxSteps >= stepFuel/8 && len(out.Violations) > 0 {
+			c.count("heavy_case_no_verdict", 1)
+			out.Violations = nil
+		}
 		res.Cases++
 		if out.Discarded {
 			res.Discarded++
